@@ -81,48 +81,60 @@ fn opt_strs(xs: &[Option<&str>]) -> Vec<RVal> {
     xs.iter().map(|x| x.map(rs).unwrap_or(RVal::Null)).collect()
 }
 
-/// Batch shapes for C07: one per encoding branch a flush / compaction can take.
+/// Batch shapes for C07. The columns x (int), y (float), z (string) are shared by the shapes and
+/// take every presence class (dense, nullable with a NULL in the first row, all NULL, absent) and
+/// every encoding class, so that compaction merges partitions in which the same column is
+/// non-null / nullable / absent in any order, with row counts that are not multiples of 8.
 pub fn c07_batches() -> Vec<Batch> {
     let long = "x".repeat(300);
     vec![
-        // dense small ints + dictionary strings
+        // dense small ints, dense floats, dictionary strings
         Batch::one(
             TableBatch::new("t", 3)
                 .col("id", ints(&[1, 2, 3]))
-                .col("s", strs(&["a", "b", "a"])),
+                .col("x", ints(&[1, 2, 3]))
+                .col("y", vec![rf(0.5), rf(2.0), rf(-1.25)])
+                .col("z", strs(&["a", "b", "a"])),
         ),
-        // nullable ints + nullable floats
+        // all three nullable, NULL in the first row
         Batch::one(
             TableBatch::new("t", 4)
                 .col("id", ints(&[10, 11, 12, 13]))
-                .col("ni", opt_ints(&[Some(5), None, Some(-7), None]))
-                .col("nf", opt_floats(&[None, Some(1.5), None, Some(-0.0)])),
+                .col("x", opt_ints(&[None, Some(5), None, Some(-7)]))
+                .col("y", opt_floats(&[None, Some(1.5), None, Some(-0.0)]))
+                .col_repr("z", opt_strs(&[None, Some("q"), Some(""), None]), Repr::Mixed),
         ),
-        // hex strings (packed-hex codec) + wide ints
+        // wide ints, hex strings (packed-hex codec), y absent
         Batch::one(
             TableBatch::new("t", 3)
                 .col("id", ints(&[20, 21, 22]))
-                .col("hx", strs(&["00ff10", "deadbeef", "0a0b0c0d0e"]))
-                .col("w", ints(&[i64::MIN, 1 << 40, i64::MAX - 1])),
+                .col("x", ints(&[i64::MIN, 1 << 40, i64::MAX - 1]))
+                .col("z", strs(&["00ff10", "deadbeef", "0a0b0c0d0e"])),
         ),
-        // column entirely NULL + columns of other batches absent
+        // x entirely NULL, y and z absent
         Batch::one(
             TableBatch::new("t", 2)
                 .col("id", ints(&[30, 31]))
-                .col_repr("an", vec![RVal::Null, RVal::Null], Repr::Empty),
+                .col_repr("x", vec![RVal::Null, RVal::Null], Repr::Empty),
         ),
-        // nullable strings + float column
+        // long / unicode strings (packed, compressible), floats incl. infinity, x absent
         Batch::one(
             TableBatch::new("t", 3)
                 .col("id", ints(&[40, 41, 42]))
-                .col_repr("ns", opt_strs(&[Some("q"), None, Some("")]), Repr::Mixed)
-                .col("f", vec![rf(0.1), rf(f64::INFINITY), rf(2.0)]),
+                .col("y", vec![rf(0.1), rf(f64::INFINITY), rf(2.0)])
+                .col("z", strs(&["héllo wörld ☃", &long, "z"])),
         ),
-        // long / unicode strings, high cardinality
+        // nullable with the NULL late, low-cardinality nullable strings (nullable dictionary)
         Batch::one(
-            TableBatch::new("t", 3)
-                .col("id", ints(&[50, 51, 52]))
-                .col("u", strs(&["héllo wörld ☃", &long, "z"])),
+            TableBatch::new("t", 6)
+                .col("id", ints(&[50, 51, 52, 53, 54, 55]))
+                .col("x", opt_ints(&[Some(300), Some(301), Some(302), Some(303), None, Some(70000)]))
+                .col("y", opt_floats(&[Some(1.0), Some(1.0), Some(1.0), None, Some(1.0), Some(1.0)]))
+                .col_repr(
+                    "z",
+                    opt_strs(&[Some("q"), Some("q"), None, Some("r"), Some("q"), None]),
+                    Repr::Mixed,
+                ),
         ),
     ]
 }
@@ -306,6 +318,39 @@ fn plan(flavor: Flavor, tier: Tier) -> Vec<Plan> {
             }
             plans.push(Plan {
                 opts,
+                batches,
+                alphabet,
+            });
+            // narrow alphabet, deeper: a column that is present in a flushed partition, missing from
+            // a later (possibly still unflushed) batch and mentioned again afterwards
+            let mk = |base: i64, names: &[&str]| {
+                let mut tb = TableBatch::new("t", 2);
+                for (k, n) in names.iter().enumerate() {
+                    tb = tb.col(n, ints(&[base + 100 * k as i64, base + 100 * k as i64 + 1]));
+                }
+                Batch::one(tb)
+            };
+            let batches = vec![mk(0, &["a", "b"]), mk(10, &["a"]), mk(20, &["c", "b"])];
+            let mut alphabet: Vec<Op> = (0..batches.len()).map(Op::Ingest).collect();
+            alphabet.extend([Op::Flush, Op::Restart]);
+            let d = if tier == Tier::Quick { 5 } else { 6 };
+            plans.push(Plan {
+                opts: vec![
+                    (
+                        DbOpts {
+                            partition_combine_factor: 0,
+                            ..base.clone()
+                        },
+                        d,
+                    ),
+                    (
+                        DbOpts {
+                            partition_combine_factor: 4,
+                            ..base.clone()
+                        },
+                        d,
+                    ),
+                ],
                 batches,
                 alphabet,
             });
@@ -789,7 +834,7 @@ pub fn run_history(case: &HistCase, check_from: usize) -> HistOutcome {
     let mut violation = None;
     if !matches!(r, Outcome::Ok(())) {
         violation = Some(mk(
-            "open:fresh".into(),
+            format!("open:fresh:{}", if matches!(r, Outcome::Hang) { "hang" } else { "caller-panic" }),
             format!("opening a fresh database: {}", r.describe()),
             0,
             case,
@@ -992,7 +1037,7 @@ impl Engine for HistEngine {
                     let t0 = std::time::Instant::now();
                     let mut o = run_history(&case, cf);
                     if let Some(v) = &o.violation {
-                        if v.sig.contains(":hang") || v.sig.starts_with("open:") {
+                        if v.sig.contains("hang") {
                             // a stall of the machine must not look like a hang of the database:
                             // the same history has to hang again with three times the deadline
                             std::env::set_var("LVMC_DEADLINE_MS", "12000");
